@@ -232,12 +232,19 @@ def correspond(model_ok, res):
         for i in bad:
             if i < len(eq_cases):
                 res.disagreements.append(dict(eq_payload[i], what="item_eqb"))
+        # EqSpec.wf_nodeb = wf_node as a boolean (EqProofs.wf_nodeb_spec): every object built through
+        # luqum's constructors satisfies the guard of the C09 clone theorems (canary2: one that does not)
         defs = ("Definition chk (c : item * item * str * str) : bool :=\n"
                 "  let '(n, cl, s0, s1) := c in\n"
-                "  oitem_beq (clone_item n) (Some cl) && str_eqb (print false n) s0 && str_eqb (print true n) s1.")
+                "  oitem_beq (clone_item n) (Some cl) && str_eqb (print false n) s0 && str_eqb (print true n) s1\n"
+                "  && wf_nodeb n.")
         canary = "(Term KWord meta0 [97], Term KWord meta0 [97], [97], [98])"
-        bad = lib.eval_cases("C09cl", "Base Decimal Tree TreeEq Print Eq", defs, cl_cases + [canary], "chk", shard=150)
+        canary2 = ("(Boost meta0 (Term KWord meta0 [97]) (mkDec false 150 (-2)) false, "
+                   "Boost meta0 (NoneItem meta0) (mkDec false 15 (-1)) false, [97;94;49;46;53;48], [97;94;49;46;53;48])")
+        bad = lib.eval_cases("C09cl", "Base Decimal Tree TreeEq Print Eq EqSpec", defs,
+                             cl_cases + [canary, canary2], "chk", shard=150)
         assert len(cl_cases) in bad, "canary not detected"
+        assert len(cl_cases) + 1 in bad, "wf_node canary not detected"
         for i in bad:
             if i < len(cl_cases):
                 res.disagreements.append(dict(cl_payload[i], what="clone_item/print"))
@@ -249,16 +256,25 @@ def correspond(model_ok, res):
 SPEC = {
     "id": "C09",
     "targets": ["props/C09.vo"],
-    "model_targets": ["model/Eq.vo", "model/Print.vo", "model/TreeEq.vo"],
+    "model_targets": ["model/Eq.vo", "model/Print.vo", "model/TreeEq.vo", "model/EqSpec.vo"],
     "module": "C09",
     "theorems": ["C09_eq_iff_same_content", "C09_eq_equivalence", "C09_layout_irrelevant",
-                 "C09_clone_shape", "C09_clone_roundtrip_eq", "C09_clone_prints_refuted",
-                 "C09_clone_prints_partial"],
+                 "C09_clone_shape", "C09_clone_same_attrs",
+                 "C09_clone_content_refuted", "C09_clone_content_partial",
+                 "C09_clone_roundtrip_eq_refuted", "C09_clone_roundtrip_eq_partial",
+                 "C09_clone_roundtrip_print_refuted", "C09_clone_roundtrip_print_partial",
+                 "C09_clone_guards_exact", "C09_deep_clone_refuted", "C09_deep_clone_partial",
+                 "C09_wf_node_established"],
     "correspond": correspond,
-    "statement": "item equality <-> equal content fingerprints (types, values, names, inclusiveness, numeric "
-                 "degrees/forces, ordered children); equivalence relation; layout/positions/names irrelevant; "
-                 "clone_item keeps type, content and layout with placeholder children; clone + children is "
-                 "equal to the original and (except implicit degrees, F9) prints like it",
+    "statement": "item equality <-> equal hand-written content fingerprints (class, value, field name, inclusiveness "
+                 "flags, numeric degree/force, ordered children; no layout, name or implicit flag); equivalence "
+                 "relation; any change of pos/size/head/tail/name/implicit flag at any depth is irrelevant; "
+                 "clone_item never raises and keeps class, layout (name dropped), own attributes (as re-run through "
+                 "the constructor) and implicit flag, children are NONE_ITEM placeholders (operations: none); the "
+                 "clone given children equal to / printing like the original's (in particular their deep clones) "
+                 "is equal to and prints like the original, exactly when an implicit degree/force holds its default "
+                 "and an explicit Boost force is normalised, which every constructor establishes (wf_node); the "
+                 "unguarded forms are refuted only by objects whose degree/force was reassigned after construction",
     "trusted_base": [
         "Coq 8.16.1 kernel (vm_compute for table facts and correspondence; no native_compute)",
         "no axioms (Print Assumptions: closed under the global context)",
